@@ -78,8 +78,9 @@ def run(R):
                         bad.append((op, "%s: %d random bytes cannot fill a salt but the call did not fail with EINVAL: %s" % (m, n, f["ret"]), line))
                     continue
                 if f["ret"] == "NULL":
-                    # more than 64 bytes may legitimately need a larger buffer (ERANGE); up to 64 the documented size suffices (C13)
-                    if n <= 64 or f["errno"] != "ERANGE":
+                    # sha1crypt encodes every byte it is given, so more than 64 bytes may legitimately need a larger buffer (ERANGE); every other
+                    # writer caps what it consumes, and up to 64 bytes the documented size suffices for all (C13) (seeded/C12e: `$gy$`, nrbytes >= 105)
+                    if n <= 64 or f["errno"] != "ERANGE" or m != "sha1crypt":
                         bad.append((op, "%s: %d random bytes suffice but the call failed (%s)" % (m, n, f["errno"]), line))
                     continue
                 s = unhx(f["ret"]); bits = GS.salt_bits(m, s)
